@@ -347,7 +347,7 @@ def install():
     os.urandom = urandom
 
     # log file sink
-    logging.FileHandler._builtin_open = staticmethod(_sim_open)
+    logging.open = _sim_open      # FileHandler.__init__ binds the module-level name `open`
 
     # the code under test
     rp = repo_path()
